@@ -42,7 +42,10 @@ var c15Placements = []string{"in-a-submodule", "direct", "grouping-local", "grou
 	// the same expression text written twice: in a grouping of the defining module and directly in the module that uses that grouping
 	"grouping-other-module-plus-own-copy",
 	// copied twice: the grouping is used by a grouping of a second module, which a third module uses
-	"grouping-through-grouping-of-a-third-module"}
+	"grouping-through-grouping-of-a-third-module",
+	// a refine in the using module adds a must whose text the refined leaf of the grouping carries already: two
+	// statements, each read in the module in which it is written
+	"must-by-refine-repeating-the-must-of-the-grouping"}
 var c15Stmts = []string{"must", "when", "path"}
 var c15PrefixUses = []string{"none", "own", "imported-by-definer-only", "imported-by-user-only", "same-prefix-different-modules", "undeclared", "same-prefix-in-included-submodule"}
 
@@ -81,6 +84,7 @@ var c15Exprs = []c15Expr{
 }
 
 type c15Case struct {
+	mustCount                  int // if > 0: the carrier has this many musts, and the one under test may be any of them
 	placement, stmt, prefixUse string
 	ex                         c15Expr
 	exprText                   string
@@ -126,6 +130,11 @@ func c15Build(placement, stmt, pu string, ex c15Expr, custom string) *c15Case {
 		if stmt != "must" {
 			return nil
 		}
+	case "must-by-refine-repeating-the-must-of-the-grouping":
+		// (the text must be valid in the defining module too: prefix uses in which that module knows the prefix)
+		if stmt != "must" || !ex.valid || (pu != "none" && pu != "imported-by-user-only" && pu != "same-prefix-different-modules") {
+			return nil
+		}
 	}
 	// modules: def (where the statement is written), use (where it ends up), x, y
 	def := yang.S("module", "c15-def", yang.S("namespace", nsDef), yang.S("prefix", "d"))
@@ -153,7 +162,7 @@ func c15Build(placement, stmt, pu string, ex c15Expr, custom string) *c15Case {
 		writer = yang.S("module", "c15-aug", yang.S("namespace", nsAug), yang.S("prefix", "a"))
 		writerNS = nsAug
 		other = use
-	case "when-on-uses-of-foreign-grouping", "must-by-refine-of-foreign-grouping":
+	case "when-on-uses-of-foreign-grouping", "must-by-refine-of-foreign-grouping", "must-by-refine-repeating-the-must-of-the-grouping":
 		writer, writerNS = use, nsUse
 		other = def
 	case "in-a-submodule":
@@ -307,6 +316,11 @@ func c15Build(placement, stmt, pu string, ex c15Expr, custom string) *c15Case {
 		def.Add(yang.S("grouping", "g", yang.S("leaf", "carrier", yang.S("type", "string"))))
 		imp(use, "c15-def", "d")
 		useTop.Add(yang.S("uses", "d:g", yang.S("refine", "carrier", yang.S("must", c.exprText, yang.S("error-message", "c15 must")))))
+	case "must-by-refine-repeating-the-must-of-the-grouping":
+		def.Add(yang.S("grouping", "g", yang.S("leaf", "carrier", yang.S("type", "string"), yang.S("must", c.exprText, yang.S("error-message", "c15 must of the grouping")))))
+		imp(use, "c15-def", "d")
+		useTop.Add(yang.S("uses", "d:g", yang.S("refine", "carrier", yang.S("must", c.exprText, yang.S("error-message", "c15 must")))))
+		c.mustCount = 2
 	case "when-on-augment-of-other-module":
 		imp(writer, "c15-use", "uu")
 		writer.Add(yang.S("augment", "/uu:top-use", yang.S("when", c.exprText), yang.S("leaf", "carrier", yang.S("type", "string"))))
@@ -483,6 +497,42 @@ func (p *c15) Run(tier string, seed int64, idx int) core.CaseResult {
 }
 
 func (p *c15) checkMachine(c *c15Case, cr compileResult, leafPath []string, expectNS, cls, input string, resp *core.CaseResult) {
+	if c.mustCount > 0 {
+		// every must is looked at in turn: one of them has to be the statement under test, read in its own module
+		n := -1
+		core.Guard(func() {
+			var node schema.Node = cr.MS
+			for _, step := range leafPath {
+				node = node.Child(step)
+			}
+			n = len(node.Musts())
+		})
+		resp.Ev("carriers_with_several_musts", 1)
+		if n != c.mustCount {
+			resp.Fail("C15/must-lost-or-duplicated/"+cls, input, fmt.Sprintf("the carrier has %d must statements after the refine, %d were written (one in the grouping, one in the refine)", n, c.mustCount))
+			return
+		}
+		var firstFail *core.CaseResult
+		for k := 0; k < n; k++ {
+			var one core.CaseResult
+			p.checkMachineAt(c, cr, leafPath, expectNS, cls, input, &one, k)
+			if len(one.Fails) == 0 {
+				for ev, v := range one.Events {
+					resp.Ev(ev, v)
+				}
+				return
+			}
+			if firstFail == nil {
+				firstFail = &one
+			}
+		}
+		resp.Fails = append(resp.Fails, firstFail.Fails...)
+		return
+	}
+	p.checkMachineAt(c, cr, leafPath, expectNS, cls, input, resp, 0)
+}
+
+func (p *c15) checkMachineAt(c *c15Case, cr compileResult, leafPath []string, expectNS, cls, input string, resp *core.CaseResult, which int) {
 	res := resp
 	var node schema.Node = cr.MS
 	pan, msg, _ := core.Guard(func() {
@@ -498,7 +548,7 @@ func (p *c15) checkMachine(c *c15Case, cr compileResult, leafPath []string, expe
 	pan, msg, _ = core.Guard(func() {
 		switch c.stmt {
 		case "must":
-			m := node.Musts()[0]
+			m := node.Musts()[which]
 			listing, gotExpr = m.Mach.PrintMachine(), m.Mach.GetExpr()
 		case "when":
 			w := node.Whens()[0]
